@@ -1,0 +1,51 @@
+//go:build verif
+// +build verif
+
+// verif hooks for property C15 (add-only, compiled only with -tags verif): the product block handler split at the point
+// where it takes its snapshot of the rule list, and the reload function.
+
+package mod_block
+
+import (
+	"net/url"
+)
+
+import (
+	"github.com/bfenetworks/bfe/bfe_basic"
+)
+
+func (m *ModuleBlock) VerifC15Reload(path string) error {
+	q := url.Values{}
+	q.Set("path", path)
+	return m.loadProductRuleConf(q)
+}
+
+// VerifC15Take = the first half of productBlockHandler: ruleTable.Search(product)
+func (m *ModuleBlock) VerifC15Take(product string) interface{} {
+	rules, ok := m.ruleTable.Search(product)
+	if !ok {
+		return nil
+	}
+	return rules
+}
+
+func verifC15Name(req *bfe_basic.Request) string {
+	if info, ok := req.GetContext(CtxBlockInfo).(*BlockInfo); ok {
+		return info.BlockRuleName
+	}
+	return "-"
+}
+
+// VerifC15Use = the second half: productRulesProcess on the rules taken
+func (m *ModuleBlock) VerifC15Use(snap interface{}, req *bfe_basic.Request) string {
+	if snap == nil {
+		return "-"
+	}
+	m.productRulesProcess(req, snap.(*blockRuleList))
+	return verifC15Name(req)
+}
+
+func (m *ModuleBlock) VerifC15Handle(req *bfe_basic.Request) string {
+	m.productBlockHandler(req)
+	return verifC15Name(req)
+}
